@@ -48,3 +48,85 @@ Qed.
    misaligned: E0793) *)
 Definition offset_of_compiles (direct : bool) (packed falign : N) : bool :=
   direct && negb (negb (packed =? 0) && (packed <? falign)).
+
+(* ---- soundness of the run-time part: whatever it returns IS the address difference, inside the
+   struct; a field address below the instance or beyond its end panics, it never yields a number *)
+Theorem offset_of_run_sound base a size r :
+  offset_of_run base a size = Ret r -> a = base + r /\ r <= size.
+Proof.
+  unfold offset_of_run. destruct (a <? base) eqn:E; [discriminate|]. apply N.ltb_ge in E.
+  destruct (a - base <=? size) eqn:F; [|discriminate]. apply N.leb_le in F.
+  intros H. inversion H; subst. split; lia.
+Qed.
+
+Theorem offset_of_run_outside base a size :
+  a < base \/ base + size < a -> forall r, offset_of_run base a size <> Ret r.
+Proof.
+  intros Hout r H. apply offset_of_run_sound in H. lia.
+Qed.
+
+(* ---- more of what "the true offset" means for the layout model: offsets are aligned for the
+   (capped) field alignment, fields come in declaration order without overlapping, and the first
+   field is at offset 0 *)
+Lemma round_up_mod n a : a <> 0 -> round_up n a mod a = 0.
+Proof. intros H. unfold round_up. apply N.eqb_neq in H. rewrite H. apply N.eqb_neq in H. apply N.mod_mul. exact H. Qed.
+
+Lemma round_up_zero a : round_up 0 a = 0.
+Proof.
+  unfold round_up. destruct (a =? 0) eqn:E; [reflexivity|]. apply N.eqb_neq in E.
+  replace (0 + a - 1) with (a - 1) by lia. rewrite N.div_small by lia. reflexivity.
+Qed.
+
+Lemma place_offsets_aligned packed fs : forall off,
+  Forall2 (fun f o => cap packed (f_align f) <> 0 -> o mod cap packed (f_align f) = 0) fs (fst (place packed off fs)).
+Proof.
+  induction fs as [|f r IH]; intros off; cbn [place]; [constructor|].
+  destruct (place packed (round_up off (cap packed (f_align f)) + f_size f) r) as [os e] eqn:E. cbn [fst].
+  constructor; [intros Hc; apply round_up_mod; exact Hc|].
+  specialize (IH (round_up off (cap packed (f_align f)) + f_size f)). rewrite E in IH. exact IH.
+Qed.
+
+Fixpoint chain (off : N) (fs : list fld) (os : list N) : Prop :=
+  match fs, os with
+  | [], [] => True
+  | f :: r, o :: os' => off <= o /\ chain (o + f_size f) r os'
+  | _, _ => False
+  end.
+
+Lemma place_chain packed fs : forall off, chain off fs (fst (place packed off fs)).
+Proof.
+  induction fs as [|f r IH]; intros off; cbn [place]; [exact I|].
+  destruct (place packed (round_up off (cap packed (f_align f)) + f_size f) r) as [os e] eqn:E. cbn [fst chain].
+  split; [apply round_up_ge|].
+  specialize (IH (round_up off (cap packed (f_align f)) + f_size f)). rewrite E in IH. exact IH.
+Qed.
+
+Theorem layout_offsets_aligned packed align fs :
+  Forall2 (fun f o => cap packed (f_align f) <> 0 -> o mod cap packed (f_align f) = 0) fs (lc_offsets (layout_C packed align fs)).
+Proof.
+  unfold layout_C. pose proof (place_offsets_aligned packed fs 0) as H.
+  destruct (place packed 0 fs) as [os e]. exact H.
+Qed.
+
+Theorem layout_offsets_ordered packed align fs : chain 0 fs (lc_offsets (layout_C packed align fs)).
+Proof.
+  unfold layout_C. pose proof (place_chain packed fs 0) as H.
+  destruct (place packed 0 fs) as [os e]. exact H.
+Qed.
+
+Theorem layout_first_field_at_zero packed align f fs :
+  hd_error (lc_offsets (layout_C packed align (f :: fs))) = Some 0.
+Proof.
+  unfold layout_C. cbn [place]. rewrite round_up_zero.
+  destruct (place packed (0 + f_size f) fs) as [os e]. reflexivity.
+Qed.
+
+(* the alignment of the struct is a multiple-of-itself bound on every capped field alignment, so an
+   instance aligned for the struct has every field aligned for its capped alignment: stated as
+   "size is a multiple of the alignment" (arrays of the struct keep fields aligned) *)
+Theorem layout_size_multiple_of_align packed align fs :
+  lc_size (layout_C packed align fs) mod lc_align (layout_C packed align fs) = 0.
+Proof.
+  unfold layout_C. destruct (place packed 0 fs) as [os e]. cbn [lc_size lc_align].
+  apply round_up_mod. unfold struct_align. destruct (align =? 0) eqn:E; [lia | apply N.eqb_neq in E; lia].
+Qed.
